@@ -33,16 +33,23 @@ type c09Sub struct {
 	Name     string  `json:"name"`
 	GW       int     `json:"gslb_weight"`
 	Backends []bspec `json:"backends"`
+	// inconsistent pair of files, for this step only:
+	NoList bool `json:"no_list,omitempty"` // gslb.data names the sub-cluster, cluster_table.data has no list for it
+	NoGslb bool `json:"no_gslb,omitempty"` // cluster_table.data has the list, gslb.data does not name the sub-cluster
 }
 
 type c09Cluster struct {
 	Name string   `json:"name"`
 	Subs []c09Sub `json:"subs"`
+	// inconsistent pair of files, for this step only:
+	NoTable bool `json:"no_table,omitempty"` // gslb.data names the cluster, cluster_table.data has no entry for it
+	NoGslb  bool `json:"no_gslb,omitempty"`  // cluster_table.data has the cluster, gslb.data does not
 }
 
 type c09Conf struct {
 	Clusters []c09Cluster `json:"clusters"`
-	Corrupt  string       `json:"corrupt,omitempty"` // the files written from this conf are invalid in this way
+	Corrupt  string       `json:"corrupt,omitempty"`      // the files written from this conf are invalid in this way
+	Incons   []string     `json:"inconsistent,omitempty"` // shapes of inconsistency between the two files (see c09MarkIncons)
 }
 
 type c09Mut struct {
@@ -73,7 +80,7 @@ func (c c09Conf) clone() c09Conf {
 
 // ---- file writing ----
 
-func c09Files(c *c09Conf, g *vkit.Rand) (gslb, table string) {
+func c09Files(c *c09Conf, g *vkit.Rand, gen int) (gslb, table string) {
 	var gcl, tcl []string
 	for _, ci := range g.Perm(len(c.Clusters)) {
 		cl := c.Clusters[ci]
@@ -89,8 +96,10 @@ func c09Files(c *c09Conf, g *vkit.Rand) (gslb, table string) {
 			if zero && w > 0 {
 				w = 0
 			}
-			gs = append(gs, fmt.Sprintf("%q: %d", s.Name, w))
-			if s.Name == "GSLB_BLACKHOLE" {
+			if !s.NoGslb {
+				gs = append(gs, fmt.Sprintf("%q: %d", s.Name, w))
+			}
+			if s.Name == "GSLB_BLACKHOLE" || s.NoList {
 				continue
 			}
 			var bs []string
@@ -108,15 +117,19 @@ func c09Files(c *c09Conf, g *vkit.Rand) (gslb, table string) {
 			}
 			ts = append(ts, fmt.Sprintf("%q: [%s]", s.Name, strings.Join(bs, ", ")))
 		}
-		gcl = append(gcl, fmt.Sprintf("%q: {%s}", cl.Name, strings.Join(gs, ", ")))
-		tcl = append(tcl, fmt.Sprintf("%q: {%s}", cl.Name, strings.Join(ts, ", ")))
+		if !cl.NoGslb {
+			gcl = append(gcl, fmt.Sprintf("%q: {%s}", cl.Name, strings.Join(gs, ", ")))
+		}
+		if !cl.NoTable {
+			tcl = append(tcl, fmt.Sprintf("%q: {%s}", cl.Name, strings.Join(ts, ", ")))
+		}
 	}
-	ts := `, "Ts": "20260101000000"`
+	ts := fmt.Sprintf(`, "Ts": "20260101%06d"`, gen) // one timestamp per written generation
 	if c.Corrupt == "missing-ts" {
 		ts = ""
 	}
 	gslb = fmt.Sprintf(`{"Clusters": {%s}, "Hostname": "gslb-sch.example"%s}`, strings.Join(gcl, ", "), ts)
-	table = fmt.Sprintf(`{"Version": "v%d", "Config": {%s}}`, g.Intn(1000), strings.Join(tcl, ", "))
+	table = fmt.Sprintf(`{"Version": "v%d.%d", "Config": {%s}}`, gen, g.Intn(1000), strings.Join(tcl, ", "))
 	if c.Corrupt == "bad-json" {
 		table = table[:len(table)/2]
 	}
@@ -329,6 +342,110 @@ func c09Gen(r *vkit.Run, idx int) *c09Hist {
 	return h
 }
 
+// ---- inconsistent pairs of files ----
+
+// Shapes of inconsistency between gslb.data and cluster_table.data in one reload. Both
+// files pass their own loaders (there is no cross-file check).
+const (
+	icTableOmitsLoadedCluster = "table-omits-loaded-cluster" // gslb names a cluster of the table, cluster_table has no entry for it
+	icTableOmitsNewCluster    = "table-omits-new-cluster"    // same for a cluster that is not in the table
+	icGslbOmitsCluster        = "gslb-omits-cluster"         // cluster_table has a cluster that gslb does not name
+	icTableOmitsLoadedSub     = "table-omits-loaded-sub"     // gslb names a sub-cluster (already in the table) without list in cluster_table
+	icTableOmitsNewSub        = "table-omits-new-sub"        // same for a sub-cluster that is new in this reload
+	icGslbOmitsSub            = "gslb-omits-sub"             // cluster_table lists a sub-cluster that gslb does not name
+)
+
+var c09InconsShapes = []string{icTableOmitsLoadedCluster, icTableOmitsNewCluster, icGslbOmitsCluster, icTableOmitsLoadedSub, icTableOmitsNewSub, icGslbOmitsSub}
+
+// c09MarkIncons turns consistent steps of h into inconsistent ones (with probability
+// num/den per step that the loaders accept; 1-2 marks per step). The marks are transient: the
+// next step is derived from the unmarked configuration. "loaded" is judged against
+// what the unchanged tree keeps in the table (clusters / sub-clusters named by the last
+// applied gslb.data); the oracle itself uses the observed table.
+func c09MarkIncons(g *vkit.Rand, h *c09Hist, num, den int) {
+	loadedSubs := func(c *c09Conf) map[string]map[string]bool {
+		m := map[string]map[string]bool{}
+		for _, cl := range c.Clusters {
+			if cl.NoGslb {
+				continue
+			}
+			m[cl.Name] = map[string]bool{}
+			for _, s := range cl.Subs {
+				if !s.NoGslb {
+					m[cl.Name][s.Name] = true
+				}
+			}
+		}
+		return m
+	}
+	loaded := loadedSubs(&h.Init)
+	for i := range h.Steps {
+		c := &h.Steps[i].Conf
+		if c.Corrupt != "" {
+			continue
+		}
+		if g.Chance(num, den) {
+			for k := g.Range(1, 2); k > 0; k-- {
+				ci := g.Intn(len(c.Clusters))
+				cl := &c.Clusters[ci]
+				if cl.NoGslb || cl.NoTable {
+					continue
+				}
+				_, wasLoaded := loaded[cl.Name]
+				switch g.Intn(8) {
+				case 0, 1, 2:
+					cl.NoTable = true
+					if wasLoaded {
+						c.Incons = append(c.Incons, icTableOmitsLoadedCluster)
+					} else {
+						c.Incons = append(c.Incons, icTableOmitsNewCluster)
+					}
+				case 3:
+					named := 0
+					for _, x := range c.Clusters {
+						if !x.NoGslb {
+							named++
+						}
+					}
+					if named >= 2 {
+						cl.NoGslb = true
+						c.Incons = append(c.Incons, icGslbOmitsCluster)
+					}
+				case 4, 5:
+					real := c09RealSubs(cl)
+					sub := &cl.Subs[real[g.Intn(len(real))]]
+					if sub.NoGslb || sub.NoList {
+						continue
+					}
+					sub.NoList = true
+					if loaded[cl.Name][sub.Name] {
+						c.Incons = append(c.Incons, icTableOmitsLoadedSub)
+					} else {
+						c.Incons = append(c.Incons, icTableOmitsNewSub)
+					}
+				default:
+					real := c09RealSubs(cl)
+					k := real[g.Intn(len(real))]
+					if cl.Subs[k].NoGslb || cl.Subs[k].NoList {
+						continue
+					}
+					rest := 0 // gslb.data must keep a positive total weight for the cluster
+					for j, x := range cl.Subs {
+						if j != k && !x.NoGslb && x.GW > 0 {
+							rest += x.GW
+						}
+					}
+					if rest > 0 {
+						cl.Subs[k].NoGslb = true
+						c.Incons = append(c.Incons, icGslbOmitsSub)
+					}
+				}
+			}
+		}
+		loaded = loadedSubs(c)
+	}
+}
+
 // ---- reference model ----
 
 type c09Key struct{ C, S, A string }
@@ -349,6 +466,18 @@ type c09Model struct {
 	bals map[string]*bal_gslb.BalanceGslb // clusters of the current configuration
 }
 
+func uniqStrings(xs []string) []string {
+	seen := map[string]bool{}
+	var out []string
+	for _, x := range xs {
+		if !seen[x] {
+			seen[x] = true
+			out = append(out, x)
+		}
+	}
+	return out
+}
+
 func c09Closed(b *backend.BfeBackend) bool {
 	select {
 	case <-b.CloseChan():
@@ -364,6 +493,7 @@ type c09Runner struct {
 	t    *bfe_balance.BalTable
 	m    c09Model
 	step int
+	ts   string // Ts of the gslb.data handed to the last BalTableReload ("" = not tracked)
 }
 
 func (x *c09Runner) wit(extra map[string]interface{}) map[string]interface{} {
@@ -386,23 +516,98 @@ func (x *c09Runner) reconcile(conf *c09Conf, isInit bool) bool {
 		r.Violation(sig, fmt.Sprintf("step %d: %s", x.step, what), x.wit(extra))
 		return false
 	}
+	ok := true
+	dropped := map[string]bool{} // clusters named by gslb.data without cluster_table entry that left the table
 	for _, cl := range conf.Clusters {
+		_, wasLoaded := x.m.bals[cl.Name]
+		if cl.NoGslb {
+			// gslb.data does not name the cluster: it is not part of the configuration, the
+			// stray cluster_table.data entry means nothing (a loaded one is handled as removed below)
+			if _, err := x.t.Lookup(cl.Name); err == nil && !wasLoaded {
+				return viol("cluster-not-in-gslb-found", "cluster "+cl.Name+" is only named by cluster_table.data but Lookup finds it", nil)
+			}
+			continue
+		}
 		bal, err := x.t.Lookup(cl.Name)
 		if err != nil {
+			if cl.NoTable && !wasLoaded {
+				// a cluster that was never loaded and has no backend lists: nothing of the
+				// statement depends on whether an empty balancer is installed
+				r.Count("incons_new_cluster_without_table_absent", 1)
+				continue
+			}
+			if cl.NoTable {
+				// the table reports the gslb.data generation that names this (loaded) cluster,
+				// yet the cluster left the table; its objects are judged by the release check below
+				if v := x.t.GetVersions(); x.ts == "" || v.GslbConfTimeStamp == x.ts {
+					r.Violation("cluster-missing-after-reload:no-table-entry", fmt.Sprintf("step %d: cluster %s was loaded, gslb.data (Ts %s, which the table reports as loaded) still names it, cluster_table.data has no entry for it: Lookup fails", x.step, cl.Name, x.ts), x.wit(nil))
+					ok = false
+				}
+				dropped[cl.Name] = true
+				continue
+			}
 			return viol("cluster-missing-after-reload", "cluster "+cl.Name+" is configured but Lookup fails", nil)
+		}
+		if cl.NoTable && !wasLoaded {
+			r.Count("incons_new_cluster_without_table_present", 1)
 		}
 		newBals[cl.Name] = bal
 		snap := bal.VerifSnapshot()
-		if len(snap.Subs) != len(cl.Subs) {
-			return viol("sub-cluster-set-differs", fmt.Sprintf("cluster %s has %d sub-clusters, configuration lists %d", cl.Name, len(snap.Subs), len(cl.Subs)), nil)
+		nsubs := 0
+		for _, s := range cl.Subs {
+			if !s.NoGslb {
+				nsubs++
+			}
+		}
+		if len(snap.Subs) != nsubs {
+			return viol("sub-cluster-set-differs", fmt.Sprintf("cluster %s has %d sub-clusters, gslb.data lists %d", cl.Name, len(snap.Subs), nsubs), nil)
 		}
 		for _, s := range cl.Subs {
+			if s.NoGslb {
+				continue // not named by gslb.data: absent (count above + presence of all others)
+			}
 			vs := subByName(&snap, s.Name)
 			if vs == nil {
 				return viol("sub-cluster-missing", "sub-cluster "+cl.Name+"/"+s.Name+" is configured but absent", nil)
 			}
 			if vs.Weight != s.GW {
 				return viol("sub-cluster-weight", fmt.Sprintf("sub-cluster %s/%s has weight %d, configured %d", cl.Name, s.Name, vs.Weight, s.GW), nil)
+			}
+			if (cl.NoTable || s.NoList) && s.Name != "GSLB_BLACKHOLE" {
+				// no backend list was given for this sub-cluster: nothing is demanded about
+				// which backends it holds, only that what it holds is consistent with the
+				// history of those objects (kept objects keep identity and state; objects
+				// that left are judged by the release check below)
+				for _, vb := range vs.RR.Backends {
+					a := vb.Backend.AddrInfo
+					key := c09Key{cl.Name, s.Name, a}
+					if c09Closed(vb.Backend) {
+						return viol("released-backend-in-live-list", fmt.Sprintf("%s/%s (no list in cluster_table.data) lists %s whose close channel is closed", cl.Name, s.Name, a), nil)
+					}
+					o := x.m.objs[vb.Backend]
+					if o == nil {
+						o = &c09Obj{key: key, ptr: vb.Backend, avail: vb.Avail, conn: vb.ConnNum, fail: vb.Backend.FailNum()}
+						x.m.objs[vb.Backend] = o
+						r.Count("incons_unlisted_sub_new_object", 1)
+					} else {
+						if o.released {
+							return viol("released-backend-in-live-list", fmt.Sprintf("%s/%s (no list in cluster_table.data) lists a backend object for %s that was removed earlier", cl.Name, s.Name, a), nil)
+						}
+						if o.key != key {
+							return viol("backend-moved", fmt.Sprintf("backend object of %v now listed under %v", o.key, key), nil)
+						}
+						if vb.Avail != o.avail || vb.ConnNum != o.conn || vb.Backend.FailNum() != o.fail {
+							return viol("survivor-state-changed", fmt.Sprintf("%s/%s/%s stayed in the table (sub-cluster without list) but avail/conn/fail = %v/%d/%d, before the reload %v/%d/%d",
+								cl.Name, s.Name, a, vb.Avail, vb.ConnNum, vb.Backend.FailNum(), o.avail, o.conn, o.fail), nil)
+						}
+						r.Count("incons_unlisted_sub_backend_kept", 1)
+					}
+					newLive[key] = append(newLive[key], o)
+				}
+				if len(vs.RR.Backends) == 0 {
+					r.Count("incons_unlisted_sub_empty", 1)
+				}
+				continue
 			}
 			// expected multiset of addresses
 			want := map[string]int{}
@@ -486,6 +691,9 @@ func (x *c09Runner) reconcile(conf *c09Conf, isInit bool) bool {
 				continue
 			}
 			if !c09Closed(o.ptr) {
+				if dropped[key.C] {
+					return viol("dropped-cluster-not-released:no-table-entry", fmt.Sprintf("cluster %s (named by gslb.data, no entry in cluster_table.data) left the table but the close channel of its backend %v is still open: removed without release", key.C, key), nil)
+				}
 				return viol("removed-not-released", fmt.Sprintf("backend %v was removed by the reload but its close channel is still open", key), nil)
 			}
 			o.released = true
@@ -494,7 +702,7 @@ func (x *c09Runner) reconcile(conf *c09Conf, isInit bool) bool {
 	}
 	// removed clusters must be gone
 	for name := range x.m.bals {
-		if _, ok := newBals[name]; !ok {
+		if _, kept := newBals[name]; !kept {
 			if _, err := x.t.Lookup(name); err == nil {
 				return viol("removed-cluster-still-found", "cluster "+name+" was removed but Lookup still finds it", nil)
 			}
@@ -502,7 +710,7 @@ func (x *c09Runner) reconcile(conf *c09Conf, isInit bool) bool {
 		}
 	}
 	x.m.live, x.m.bals = newLive, newBals
-	return true
+	return ok
 }
 
 // picks drives Balance on every cluster: only live objects may come back, and
@@ -511,6 +719,9 @@ func (x *c09Runner) picks(conf *c09Conf, g *vkit.Rand) bool {
 	r := x.r
 	for _, cl := range conf.Clusters {
 		bal := x.m.bals[cl.Name]
+		if bal == nil {
+			continue // not named by gslb.data in this (inconsistent) step
+		}
 		snap := bal.VerifSnapshot()
 		type need struct {
 			o   *c09Obj
@@ -642,12 +853,14 @@ func c09Run(r *vkit.Run, h *c09Hist, t *bfe_balance.BalTable) {
 	defer os.RemoveAll(dir)
 	gf, tf := filepath.Join(dir, "gslb.data"), filepath.Join(dir, "cluster_table.data")
 	g := r.Rng("run", h.Index)
+	gen := 0
 	write := func(c *c09Conf) {
-		a, b := c09Files(c, g)
+		gen++
+		a, b := c09Files(c, g, gen)
 		os.WriteFile(gf, []byte(a), 0o644)
 		os.WriteFile(tf, []byte(b), 0o644)
 	}
-	reloads, rejected := 0, 0
+	reloads, rejected, incons := 0, 0, 0
 	abandoned := false
 	r.WriteAhead(h)
 	try(r, func() interface{} { return map[string]interface{}{"history": h, "step": x.step} }, func() {
@@ -717,6 +930,7 @@ func c09Run(r *vkit.Run, h *c09Hist, t *bfe_balance.BalTable) {
 					}
 				}(w)
 			}
+			x.ts = *gc.Ts
 			var rerr error
 			panicked := try(r, func() interface{} {
 				return map[string]interface{}{"history": h, "step": x.step, "in": "BalTableReload"}
@@ -729,7 +943,19 @@ func c09Run(r *vkit.Run, h *c09Hist, t *bfe_balance.BalTable) {
 				return
 			}
 			wg.Wait()
-			if rerr != nil {
+			if len(st.Conf.Incons) > 0 {
+				// an inconsistent pair: whether BalTableReload reports an error is not judged;
+				// the table is judged after failing and after successful reloads alike
+				for _, sh := range uniqStrings(st.Conf.Incons) {
+					r.Count("incons_"+sh, 1)
+				}
+				if rerr != nil {
+					r.Count("incons_reloads_returning_error", 1)
+				} else {
+					r.Count("incons_reloads_returning_nil", 1)
+				}
+				incons++
+			} else if rerr != nil {
 				r.Violation("reload-failed-valid", "BalTableReload failed on a consistent configuration: "+rerr.Error(), x.wit(nil))
 				abandoned = true
 				return
@@ -747,13 +973,14 @@ func c09Run(r *vkit.Run, h *c09Hist, t *bfe_balance.BalTable) {
 	r.CaseS(string(kb), reloads >= 2 && !abandoned)
 	r.Count("reloads_applied", int64(reloads))
 	r.Count("reloads_rejected_by_loader", int64(rejected))
+	r.Count("reloads_applied_inconsistent_pair", int64(incons))
 	if r.WantSample() && reloads >= 4 {
 		r.Sample(h)
 	}
 }
 
 func c09(r *vkit.Run) {
-	r.SetRule("histories: an initial configuration (1-2 clusters, 1-3 sub-clusters + optional GSLB_BLACKHOLE, 1-4 backends each, a third with duplicate addresses) loaded with BalTable.Init, then 3-12 steps; each step changes the state of some live backends (SetAvail, Inc/DecConnNum, AddFailNum) and writes new gslb.data / cluster_table.data derived from the current configuration by 1-3 edits (add / remove / re-weight incl. 0 and negative / rename / duplicate-address backend, add / remove / re-add sub-cluster, new gslb weights incl. 0, add / remove / re-add cluster, blackhole on/off; entries in shuffled textual order) which go through BalTableConfLoad and BalTableReload while 2 goroutines keep calling Lookup+Balance and GetState; one step in six writes files the loaders must reject (truncated JSON, gslb total weight 0, sub-cluster without positive weight, missing Weight, missing Ts) and the table must stay as it was. After every (re)load the table is enumerated through the verif accessor and compared with the reference model: configured clusters / sub-clusters / addresses present with configured weights, objects that persisted keep avail, connNum, failNum, every object that left has a closed close channel, no object with a closed channel is listed or returned by Balance, removed clusters are not found, and every available positive-weight backend of a positive-weight sub-cluster is returned within 50*W+200 picks that land in its sub-cluster (W = that sub-cluster's eligible weight sum; the margin covers the smooth-WRR transient after weight changes). Generated pairs are consistent (every sub-cluster named in gslb.data except the blackhole has a list in cluster_table.data); which of two same-address entries survives, and renames, are not constrained beyond one live object per address. Non-trivial = history with >=2 applied reloads; distinct = history")
+	r.SetRule("histories: an initial configuration (1-2 clusters, 1-3 sub-clusters + optional GSLB_BLACKHOLE, 1-4 backends each, a third with duplicate addresses) loaded with BalTable.Init, then 3-12 steps; each step changes the state of some live backends (SetAvail, Inc/DecConnNum, AddFailNum) and writes new gslb.data / cluster_table.data derived from the current configuration by 1-3 edits (add / remove / re-weight incl. 0 and negative / rename / duplicate-address backend, add / remove / re-add sub-cluster, new gslb weights incl. 0, add / remove / re-add cluster, blackhole on/off; entries in shuffled textual order) which go through BalTableConfLoad and BalTableReload while 2 goroutines keep calling Lookup+Balance and GetState; one step in six writes files the loaders must reject (truncated JSON, gslb total weight 0, sub-cluster without positive weight, missing Weight, missing Ts) and the table must stay as it was. After every (re)load the table is enumerated through the verif accessor and compared with the reference model: configured clusters / sub-clusters / addresses present with configured weights, objects that persisted keep avail, connNum, failNum, every object that left has a closed close channel, no object with a closed channel is listed or returned by Balance, removed clusters are not found, and every available positive-weight backend of a positive-weight sub-cluster is returned within 50*W+200 picks that land in its sub-cluster (W = that sub-cluster's eligible weight sum; the margin covers the smooth-WRR transient after weight changes). In the first 500 (q) / 6000 (t) histories the pairs are consistent (every sub-cluster named in gslb.data except the blackhole has a list in cluster_table.data); which of two same-address entries survives, and renames, are not constrained beyond one live object per address. INCONSISTENT PAIRS: 150 (q) / 1800 (t) further histories of the same generator in which every second step accepted by the loaders writes a pair of files that disagree (1-2 marks per step, transient: the next step derives from the unmarked configuration): cluster_table.data lacks a cluster named by gslb.data (already in the table / new), gslb.data lacks a cluster of cluster_table.data, cluster_table.data lacks the list of a sub-cluster named by gslb.data (already in the table / new), gslb.data lacks a sub-cluster listed in cluster_table.data; every written generation has its own Ts. Whether BalTableReload returns an error for such a pair is NOT judged (both outcomes counted); the table is judged after failing and successful reloads alike: gslb.data is authoritative for membership - a cluster / sub-cluster it does not name is removed (released once, not found) whatever cluster_table.data lists; a cluster that was in the table and is named by the gslb.data generation the table reports in GetVersions must still be found (cluster-missing-after-reload:no-table-entry); sub-cluster set and gslb weights of every found cluster equal gslb.data; for a sub-cluster without list (or a cluster without entry) nothing is demanded about WHICH backends it holds, but every object it holds that was known before is the same object under the same key with unchanged avail/connNum/failNum and an open close channel, and every object that was in the table before the reload and is not after has a closed close channel (once: a second close panics; signature dropped-cluster-not-released:no-table-entry when its whole cluster left the table); sub-clusters that do have a list are judged exactly as in consistent reloads (no loss for the consistent part of an inconsistent reload), and so is every later consistent reload against the objects observed to have stayed; whether a never-loaded cluster without entry is installed as an empty balancer is only counted. Non-trivial = history with >=2 applied reloads; distinct = history")
 	r.Assume("health checking is off (CheckConfFetcher returns nil); balance mode is the default WRR")
 	if r.Replay != "" {
 		var w struct {
@@ -768,14 +995,29 @@ func c09(r *vkit.Run) {
 		return
 	}
 	n := r.N(500, 6000)
+	n2 := r.N(150, 1800) // histories with inconsistent pairs of files
 	// NewBalTable stores a process-global fetcher: create all tables before any goroutine runs
-	tables := make([]*bfe_balance.BalTable, n)
+	tables := make([]*bfe_balance.BalTable, n+n2)
 	for i := range tables {
 		tables[i] = bfe_balance.NewBalTable(func(string) *cluster_conf.BackendCheck { return nil })
 	}
-	vkit.Parallel(n, 0, func(i int) {
-		c09Run(r, c09Gen(r, i), tables[i])
+	vkit.Parallel(n+n2, 0, func(i int) {
+		if i < n {
+			c09Run(r, c09Gen(r, i), tables[i])
+			return
+		}
+		h := c09Gen(r, 1000000+i-n)
+		c09MarkIncons(r.Rng("incons", i-n), h, 1, 2)
+		c09Run(r, h, tables[i])
 	})
+	for _, sh := range c09InconsShapes {
+		if r.Counter("incons_"+sh) == 0 {
+			r.Inconclusive("no reload with an inconsistent pair of shape " + sh + " was applied")
+		}
+	}
+	if r.Counter("incons_unlisted_sub_backend_kept") == 0 {
+		r.Inconclusive("no backend of a sub-cluster without list was observed across an inconsistent reload")
+	}
 	keys := []string{"backends_added", "backends_removed", "clusters_removed", "reloads_rejected_by_loader", "state_changes"}
 	sort.Strings(keys)
 	for _, k := range keys {
